@@ -31,6 +31,7 @@ import (
 	"github.com/fatedier/frp/pkg/proto/udp"
 	"github.com/fatedier/frp/pkg/util/limit"
 	netpkg "github.com/fatedier/frp/pkg/util/net"
+	"github.com/fatedier/frp/pkg/util/verifhook"
 	"github.com/fatedier/frp/server/metrics"
 )
 
@@ -89,6 +90,7 @@ func (pxy *UDPProxy) Run() (remoteAddr string, err error) {
 
 	remoteAddr = fmt.Sprintf(":%d", pxy.realBindPort)
 	pxy.cfg.RemotePort = pxy.realBindPort
+	verifhook.At("udp.run.acquired", pxy.name)
 	addr, errRet := net.ResolveUDPAddr("udp", net.JoinHostPort(pxy.serverCfg.ProxyBindAddr, strconv.Itoa(pxy.realBindPort)))
 	if errRet != nil {
 		err = errRet
@@ -240,6 +242,7 @@ func (pxy *UDPProxy) Run() (remoteAddr string, err error) {
 	// Close readCh and sendCh at the end.
 	go func() {
 		udp.ForwardUserConn(udpConn, pxy.readCh, pxy.sendCh, int(pxy.serverCfg.UDPPacketSize))
+		verifhook.At("udp.forwarder.exit", pxy.name)
 		pxy.Close()
 	}()
 	return remoteAddr, nil
